@@ -600,8 +600,10 @@ class Dataset(AbstractDataset, dict, OpMixin, GetSetDelAttrMixin):
                 raise TypeError("mapper must be callable")
             iterkeys = [(old, mapper(old)) for old in ds.dims]
 
-        for old, new in iterkeys:
-            ds.axes[old].name = new
+        # look every axis up before renaming any: a new name may also be an old one (swap, shift)
+        renamed = [(ds.axes[old], new) for old, new in iterkeys]
+        for ax, new in renamed:
+            ax.name = new
 
         if not inplace:
             return ds
